@@ -135,3 +135,55 @@ def asset_nodes(a):
 
 def close(a, b, rel=1e-6, abs_=1e-7):
     return abs(a - b) <= abs_ + rel * max(abs(a), abs(b))
+
+
+# ------------------------------------------------------------------ HiGHS on the problem's own arrays
+def bool_vars(op):
+    """indices of variables flagged boolean in the mapping (first row per variable decides)"""
+    m = op.mapping
+    if m is None or "bool" not in m.columns:
+        return []
+    first = m[~m.index.duplicated(keep="first")]
+    b = first["bool"].fillna(False).astype(bool)
+    return [int(i) for i in first.index.values[b.values]]
+
+
+def solve_arrays(c, l, u, A, b, cType, integ=None, feasibility_only=False):
+    """maximise -c.x subject to the problem's rows, solved by scipy/HiGHS directly.
+    returns (status, x, value)"""
+    from scipy.optimize import milp, LinearConstraint, Bounds
+    from scipy import sparse as sp
+    n = len(c)
+    if n == 0:
+        return "optimal", np.zeros(0), 0.0
+    cons = []
+    if A is not None and A.shape[0] > 0:
+        A = sp.csr_matrix(A)
+        lo = np.full(A.shape[0], -np.inf)
+        hi = np.full(A.shape[0], np.inf)
+        bb = np.asarray(b, float)
+        for i, t in enumerate(cType):
+            if t == "U":
+                hi[i] = bb[i]
+            elif t == "L":
+                lo[i] = bb[i]
+            elif t in ("S", "N"):
+                lo[i] = hi[i] = bb[i]
+            else:
+                raise ValueError("row type %r" % t)
+        cons = [LinearConstraint(A, lo, hi)]
+    if np.any(np.asarray(l) > np.asarray(u) + 1e-12):
+        return "infeasible", None, None
+    integrality = np.zeros(n)
+    if integ:
+        integrality[list(integ)] = 1
+    cost = np.zeros(n) if feasibility_only else np.asarray(c, float)
+    r = milp(cost, constraints=cons, integrality=integrality, bounds=Bounds(np.asarray(l, float), np.asarray(u, float)),
+             options=dict(mip_rel_gap=0.0))
+    if r.status == 0:
+        return "optimal", r.x, float(-(np.asarray(c, float) * r.x).sum())
+    if r.status == 2:
+        return "infeasible", None, None
+    if r.status == 3:
+        return "unbounded", None, None
+    return "other:%s" % r.status, None, None
